@@ -91,6 +91,37 @@ def visit_constant(args):
     return False, "ok: %s : %s" % (text, kind)
 
 
+def _const_node(text, kind, scope):
+    "an ast node that already carries a C++ representation of the given kind (as if produced by an earlier visit)"
+    import ast
+    import func_adl_xAOD.common.cpp_representation as crep
+    import func_adl_xAOD.common.cpp_types as ctyp
+    n = ast.Name(id=text)
+    crep.set_rep(n, crep.cpp_value(text, scope, ctyp.terminal(kind)))
+    return n
+
+
+@driver
+def visit_binop(args):
+    """args: {"op": "Div"|"Mod"|..., "kl": kind, "kr": kind}: translate `a <op> b` with operands of the given declared kinds and
+    compare the declared result kind with what C++ computes for the emitted text"""
+    import ast
+    v = _visitor()
+    scope = v._gc.current_scope()
+    node = ast.BinOp(left=_const_node("a", args["kl"], scope), op=getattr(ast, args["op"])(), right=_const_node("b", args["kr"], scope))
+    try:
+        v.visit_BinOp(node)
+    except Exception as e:  # noqa
+        return bool(args.get("must_accept")), "refused with %s: %s" % (type(e).__name__, e)
+    text, declared = node.rep.as_cpp(), node.rep.cpp_type().type
+    rank = {"int": 0, "float": 1, "double": 2}
+    if args["op"] == "Mod" and (args["kl"] != "int" or args["kr"] != "int") and "%" in text and "fmod" not in text:
+        return True, "`a %% b` with kinds (%s, %s) is emitted as %s: operator %% on a floating operand is ill-formed C++" % (args["kl"], args["kr"], text)
+    if args["op"] == "Div" and args["kl"] == "int" and args["kr"] == "int" and "static_cast" not in text and declared == "double":
+        return True, "`a / b` with two int operands is emitted as %s and declared %s: C++ evaluates it as truncating integer division" % (text, declared)
+    return False, "ok: %s : %s" % (text, declared)
+
+
 def main():
     name = sys.argv[1]
     args = json.loads(sys.argv[2]) if len(sys.argv) > 2 else {}
